@@ -10,7 +10,7 @@ import (
 
 func main() {
 	hlib.Guarded(func(run *hlib.Run) {
-		run.Rule = "churn histories: rings of 1..6 real LocalNodes (ids adversarial or placed on/next to key hashes), 12 keys with shared prefixes, random put/get/delete/prefix ops through random entry nodes interleaved with graceful joins (into non-empty ranges) and leaves (of nodes holding data) and repair rounds; then repair to a fixpoint, quiescent-point placement check, and reads of every key via every member; non-trivial = distinct history with at least one membership change while data is stored"
+		run.Rule = "churn histories: rings of 1..6 real LocalNodes (ids adversarial or placed on/next to key hashes), 12 keys with shared prefixes, random put/get/delete/prefix ops through random entry nodes interleaved with graceful joins (into non-empty ranges) and leaves (of nodes holding data) and repair rounds; plus real-timer scenarios (millisecond task intervals): the owner of a stored key leaves while its successor holds the membership lock for a joiner placed directly behind it, the join held before its 1st/2nd FinishJoin call, then settling, reads of every acknowledged key and a placement check on the settled ring; then repair to a fixpoint, quiescent-point placement check, and reads of every key via every member; non-trivial = distinct history with at least one membership change while data is stored"
 		rng := hlib.NewRng(run.Seed)
 		if run.Replay != "" {
 			s := ringh.NewSession(run, rng)
@@ -30,6 +30,14 @@ func main() {
 		cases, steps := 10, 60
 		if run.Thorough() {
 			cases, steps = 80, 120
+		}
+		// real-timer scenarios (leave of a key owner inside the join window of a node placed directly behind it)
+		timed := 4
+		if run.Thorough() {
+			timed = 40
+		}
+		for t := 0; t < timed; t++ {
+			ringh.TimedLeaveInJoinWindow(run, rng)
 		}
 		for c := 0; c < cases; c++ {
 			backend := "memory"
